@@ -9,3 +9,4 @@ pub mod val;
 pub mod codec;
 pub mod typed;
 pub mod frame;
+pub mod c02;
